@@ -65,7 +65,7 @@ def rebaseline(units):
             print(r.raw_stderr[-3000:])
             return 1
         base = {"obligations": {f: {"mode": d["mode"]} for f, d in sorted(r.functions.items()) if f.startswith(u + "::")},
-                "hashes": r.hashes}
+                "hashes": r.hashes, "locals": r.locals}
         with open(os.path.join(VERIF, "units", u, "baseline.json"), "w") as f:
             json.dump(base, f, indent=1, sort_keys=True)
         print("unit %s: %d obligations, %d extracted items, %.1fs" % (u, len(base["obligations"]), len(r.hashes), r.wall))
